@@ -276,11 +276,19 @@ namespace kit
       out.push_back({e["property"].GetString(), e["status"].GetString(), e["match"].GetString(), e["what"].GetString()});
     return out;
   }
-  // match: exact signature, or prefix when the entry ends in '*'
+  // match: glob where '*' matches any (possibly empty) substring; everything else is literal
   inline bool sig_match(const std::string &pat, const std::string &sig)
   {
-    if (!pat.empty() && pat.back() == '*') return sig.compare(0, pat.size()-1, pat, 0, pat.size()-1) == 0;
-    return pat == sig;
+    size_t p = 0, s = 0, star = std::string::npos, mark = 0;
+    while (s < sig.size())
+      {
+        if (p < pat.size() && pat[p] != '*' && pat[p] == sig[s]) { ++p; ++s; }
+        else if (p < pat.size() && pat[p] == '*') { star = p++; mark = s; }
+        else if (star != std::string::npos) { p = star + 1; s = ++mark; }
+        else return false;
+      }
+    while (p < pat.size() && pat[p] == '*') ++p;
+    return p == pat.size();
   }
 
   inline std::string sanitize(const std::string &s)
